@@ -776,6 +776,12 @@ func (t *Terminal) readLine() (line string, err error) {
 
 		// t.remainder is a slice at the beginning of t.inBuf
 		// containing a partial key sequence
+		if len(t.remainder) == len(t.inBuf) {
+			// the buffer is full and still holds no complete key sequence: drop it, a read
+			// into the empty rest of the buffer returns at once and this loop would spin forever
+			t.remainder = nil
+		}
+
 		readBuf := t.inBuf[len(t.remainder):]
 		var n int
 
